@@ -45,6 +45,10 @@ class MethodObject:
                 stacklevel=2,
             )
             classname = new_class_name
+        if classname is None:
+            raise exceptions.RefactoringError(
+                "A name for the new class should be given (classname)."
+            )
         collector = codeanalyze.ChangeCollector(self.pymodule.source_code)
         start, end = sourceutils.get_body_region(self.pyfunction)
         indents = sourceutils.get_indents(
